@@ -286,6 +286,13 @@ func runFault(sc *scn.Scenario, em func(vt.Ev), mode string, k int64, baseline *
 		}
 	}
 	sink.Emit(vt.Ev{"ev": "census", "alive": alive, "where": where, "mutated": mutated})
+	// the engine that has just seen the fault serves the same query again, fault-free: other queries
+	// are unaffected by a query that failed, panicked or was cancelled (not in the distributed
+	// set-up, whose remote engines hold the faulted storage)
+	if mode != "none" && !dist && !timedout && baseline != nil && alive == 0 {
+		again := run.Exec(context.Background(), eng, vstore.New(series), sc, false)
+		sink.Emit(vt.Ev{"ev": "after", "equal": wholeResult(again.C).equal(baseline.obs), "desc": wholeResult(again.C).diff(baseline.obs)})
+	}
 	rmode := mode
 	if isGate {
 		rmode = "cancel" // for the specification a gate is a cancellation at a scheduling point
